@@ -1,13 +1,15 @@
 package main
 
 import (
+	"encoding/json"
 	"fmt"
+	"sort"
 	"strconv"
 )
 
 func init() {
 	generators["C01"] = func(tier, out string, sum *Summary) {
-		genSpecCases("C01", tier, out, sum, &Gen{}, 3)
+		genSpecCases("C01", tier, out, sum, &Gen{Lets: true}, 3)
 	}
 }
 
@@ -24,12 +26,26 @@ func genSpecCases(prop, tier, out string, sum *Summary, g *Gen, depth int) {
 	for i := range docs {
 		docs[i] = genDoc()
 	}
+	docs = append(docs, shapedDocs()...)
 	for id := 1; id <= n; id++ {
 		e := g.expr(depth)
 		text := unparse(e)
 		doc := docs[rng.Intn(len(docs))]
 		if rng.Intn(4) == 0 {
 			doc = genDoc()
+		} else if rng.Intn(5) > 0 {
+			// a document on which the expression selects something: synthesised from the
+			// expression's paths, or the best of a few pool documents
+			doc = docFor(e)
+			if outcomeScore(search(text, doc)) < 4 {
+				doc = fitDoc(text, append([]any{docFor(e), docFor(e), docFor(e)}, docs...), doc)
+			}
+		}
+		if hasEnum(e) && orderSensitive(e) && !buildsObjects(e) {
+			// objects with at most one member enumerate in one order only: the position or
+			// comparison applied to the enumeration is then determined
+			doc = bestNarrow(text, doc)
+			sum.count("narrowed-objects/enumeration-then-position")
 		}
 		o := search(text, doc)
 		unordered := "false"
@@ -44,7 +60,7 @@ func genSpecCases(prop, tier, out string, sum *Summary, g *Gen, depth int) {
 				distinct[text+"|"+toJSON(o.Value)] = true
 			}
 		}
-		if hasEnum(e) && orderSensitive(e) {
+		if hasEnum(e) && orderSensitive(e) && buildsObjects(e) {
 			sum.count("not-compared/enumeration-then-position")
 			continue // a position or comparison applied to an enumerated array inherits the permitted variation
 		}
@@ -96,4 +112,167 @@ func hasEnum(e *R) bool {
 		}
 	}
 	return false
+}
+
+// score of an outcome: the more the expression selected, the better the case discriminates
+func outcomeScore(o Obs) int {
+	if o.Kind != "val" {
+		return 0
+	}
+	switch v := o.Value.(type) {
+	case nil:
+		return 1
+	case bool:
+		if v {
+			return 3
+		}
+		return 2
+	case []any:
+		if len(v) == 0 {
+			return 2
+		}
+		for _, x := range v {
+			if x != nil {
+				return 5
+			}
+		}
+		return 3
+	case map[string]any:
+		if len(v) == 0 {
+			return 2
+		}
+		return 5
+	case string:
+		if v == "" {
+			return 2
+		}
+		return 4
+	}
+	return 4
+}
+
+// the best of a few candidate documents for this expression (ties keep the first)
+func fitDoc(text string, pool []any, fallback any) any {
+	best, bestScore := fallback, outcomeScore(search(text, fallback))
+	for i := 0; i < 8 && bestScore < 5; i++ {
+		d := pool[rng.Intn(len(pool))]
+		if i < 3 && i < len(pool) {
+			d = pool[i]
+		}
+		if sc := outcomeScore(search(text, d)); sc > bestScore {
+			best, bestScore = d, sc
+		}
+	}
+	return best
+}
+
+// documents shaped like the paths the generator writes: arrays of objects, nested objects and
+// arrays of arrays over the generator's field names
+func shapedDocs() []any {
+	num := func(s string) any { return json.Number(s) }
+	row := func(a, b, c any) any { return map[string]any{"a": a, "b": b, "c": c, "k": "k"} }
+	rows := []any{row(num("1"), "x", []any{num("1"), num("2")}), row(num("2"), "y", nil), nil, row(nil, "x", []any{}), row(num("1"), nil, []any{nil, num("3")})}
+	nested := map[string]any{"a": map[string]any{"a": rows, "b": map[string]any{"a": num("1"), "b": []any{num("1"), nil, num("2")}, "c": "s"}, "c": []any{[]any{num("1"), nil}, []any{}, []any{[]any{num("2")}}}, "k": true},
+		"b": rows, "c": []any{[]any{num("1"), num("2")}, []any{num("3"), nil}, []any{[]any{num("5"), nil}, num("6")}}, "k": "v"}
+	return []any{rows, nested, map[string]any{"a": rows, "b": nested, "c": map[string]any{"a": nested, "b": rows}, "k": num("0")},
+		map[string]any{"a": []any{num("3"), num("1"), nil, num("2")}, "b": []any{"b", "a", ""}, "c": []any{true, false, nil}, "k": map[string]any{"a": num("1"), "b": num("2")}}}
+}
+
+// does the expression build objects with two or more members itself (multi-select hashes, object
+// literals, merge / from_items / group_by)? Their enumeration order is not controlled by the document.
+func buildsObjects(e *R) bool {
+	if e == nil {
+		return false
+	}
+	switch e.K {
+	case KMultiHash:
+		if len(e.KEs) > 1 {
+			return true
+		}
+	case KLiteral:
+		if hasWideObject(e.Lit) {
+			return true
+		}
+	case KCall:
+		switch e.Name {
+		case "merge", "from_items", "group_by":
+			return true
+		}
+	}
+	if buildsObjects(e.L) || buildsObjects(e.Rt) || buildsObjects(e.Cond) {
+		return true
+	}
+	for _, x := range e.Es {
+		if buildsObjects(x) {
+			return true
+		}
+	}
+	for _, kv := range e.KEs {
+		if buildsObjects(kv.E) {
+			return true
+		}
+	}
+	for _, a := range e.Args {
+		if buildsObjects(a.E) {
+			return true
+		}
+	}
+	return false
+}
+
+func hasWideObject(v any) bool {
+	switch v := v.(type) {
+	case map[string]any:
+		if len(v) > 1 {
+			return true
+		}
+		for _, x := range v {
+			if hasWideObject(x) {
+				return true
+			}
+		}
+	case []any:
+		for _, x := range v {
+			if hasWideObject(x) {
+				return true
+			}
+		}
+	}
+	return false
+}
+
+// the same document with every object cut down to one member (the k-th in key order, cyclically)
+func narrowDoc(v any, k int) any {
+	switch v := v.(type) {
+	case map[string]any:
+		if len(v) == 0 {
+			return v
+		}
+		keys := make([]string, 0, len(v))
+		for k := range v {
+			keys = append(keys, k)
+		}
+		sort.Strings(keys)
+		key := keys[k%len(keys)]
+		return map[string]any{key: narrowDoc(v[key], k)}
+	case []any:
+		c := make([]any, len(v))
+		for i, x := range v {
+			c[i] = narrowDoc(x, k)
+		}
+		return c
+	}
+	return v
+}
+
+// the narrowing of doc (one member per object) on which the expression selects most
+func bestNarrow(text string, doc any) any {
+	bestDoc, bestScore := narrowDoc(doc, 0), -1
+	for k := 0; k < 4; k++ {
+		d := narrowDoc(doc, k)
+		if sc := outcomeScore(search(text, d)); sc > bestScore {
+			bestDoc, bestScore = d, sc
+		}
+	}
+	return bestDoc
 }
